@@ -12,9 +12,9 @@ call into the next; `imap_result` gives the quiescent state between calls (no re
 Worker availability across replacement and the termination of every call are the liveness theorems of C02
 (`imap_no_deadlock`); D19 repaired: leaving the context is covered by them too.
 
-A finite `join_timeout` (`Cfg.joinTimeout`; the model's worker has then a step `.ending` of its own between the post of its wid
-to the replace queue and its `end()`/exit, and the joins of the replace thread and of `__exit__` return whether the worker
-has exited or not): every theorem above holds for these configurations too (same statements) — EXCEPT `exit_joins_all`, which
+The model's worker has a step `.ending` of its own between the operation that ends its loop (stop order taken, wid posted,
+…) and its `end()`/exit, in every configuration.  A finite `join_timeout` (`Cfg.joinTimeout`; the joins of the replace
+thread and of `__exit__` return whether the worker has exited or not): every theorem above holds for these configurations too (same statements) — EXCEPT `exit_joins_all`, which
 is false then (`C02.exit_returns_with_running_worker`) and carries the hypothesis `cfg.joinTimeout = false`.
 `successor_while_retired_runs`: the successor of a retired worker can be started while the retired worker is still running;
 `retired_still_ends`: it ends all the same, its lifecycle is intact.
@@ -89,7 +89,7 @@ example : (run (init jtCfg) (jtSched ++ [.w 0])).map (fun s => s.workers.map (fu
 /-! ### how many worker processes are alive at once (Proofs/PoolAlive.lean)
 
 `aliveCnt s` = number of workers whose pc is neither `notStarted` nor `exited` (running processes); `notStartedCnt` = created
-but not started; `endingCnt` = retired workers inside `end()` (only with a join timeout); `unlistedCnt` = workers the pool
+but not started; `endingCnt` = workers inside `end()`; `unlistedCnt` = workers the pool
 does not list any more; `replCount s₀ sched` = steps of the replace thread along `sched` that create a successor. -/
 
 /-- **`join_timeout=None`: in every reachable state at most `nWorkers` worker processes are running.**  The replace thread
@@ -110,14 +110,28 @@ theorem alive_listed (cfg : Cfg) (hjt : cfg.joinTimeout = false) (s : St) (h : R
     (hw : w ∈ s.workers) (hr : running w.pc = true) : w.wid ∈ s.procs := by
   first | exact WindVerif.Pool.alive_listed .. | (apply WindVerif.Pool.alive_listed <;> assumption)
 
-/-- `join_timeout=None`: whenever the replace thread is at its `join` for worker `wid` (the step that creates the
-successor), that worker has already exited -/
+/-- `join_timeout=None`: whenever the replace thread PERFORMS its `join` step for worker `wid` (the step that creates the
+successor), that worker has already exited.  RESTATED: hypothesis `hs` (the step is taken) ADDED — the worker posts its wid
+BEFORE it runs `end()`, so the replace thread can arrive at the join while the worker is still inside `end()`; the join then
+blocks (counterexample to the old form: `successor_join_waits` below) -/
 theorem successor_after_exit (cfg : Cfg) (hjt : cfg.joinTimeout = false) (s : St) (h : Reach cfg s) (wid : Nat)
-    (hr : s.rpc = .join wid) : ∀ w ∈ s.workers, w.wid = wid → w.pc = .exited := by
+    (hr : s.rpc = .join wid) (s' : St) (hs : step s .r = some s') : ∀ w ∈ s.workers, w.wid = wid → w.pc = .exited := by
   first | exact WindVerif.Pool.successor_after_exit .. | (apply WindVerif.Pool.successor_after_exit <;> assumption)
 
+/-- the state the old form of `successor_after_exit` overlooked: `join_timeout=None`, the replace thread at its join for
+worker 0, which is still inside `end()` — the join blocks (the replace thread is not enabled, worker 0 is); one process runs -/
+theorem successor_join_waits : (run (init njCfg) njSchedWait).map
+    (fun s => (s.rpc, s.workers.map (fun w => (w.wid, w.pc)), (step s .r).isSome, (step s (.w 0)).isSome, aliveCnt s)) =
+    some (.join 0, [(0, .ending)], false, true, 1) := by
+  first | exact WindVerif.Pool.successor_join_waits .. | (apply WindVerif.Pool.successor_join_waits <;> assumption)
+
+/-- every configuration: the worker the replace thread is about to join has left its loop for good (exited or in `end()`) -/
+theorem successor_after_gone (cfg : Cfg) (s : St) (h : Reach cfg s) (wid : Nat) (hr : s.rpc = .join wid) :
+    ∀ w ∈ s.workers, w.wid = wid → gone w.pc = true := by
+  first | exact WindVerif.Pool.successor_after_gone .. | (apply WindVerif.Pool.successor_after_gone <;> assumption)
+
 /-- every configuration (timed joins included): the running or created-but-not-started workers beyond `nWorkers` are
-retired workers still inside `end()` -/
+workers inside `end()` -/
 theorem alive_le_general (cfg : Cfg) (s : St) (h : Reach cfg s) :
     aliveCnt s + notStartedCnt s ≤ cfg.nWorkers + endingCnt s := by
   first | exact WindVerif.Pool.alive_le_general .. | (apply WindVerif.Pool.alive_le_general <;> assumption)
@@ -174,13 +188,14 @@ theorem alive_bound_needs_no_timeout : ¬ ∀ (cfg : Cfg) (s : St), Reach cfg s 
 /-- non-vacuity: `njCfg` (= `jtCfg` with `join_timeout=None`: 1 worker, factory, quota 1, a call of 2 chunks) meets the
 hypothesis; after the schedule `njSched` (worker 0 retires and exits, the replace thread joins it, creates, lists and starts
 worker 1) the bound is attained (1 running process = `nWorkers`), 2 workers have been created by 1 replacement, 1 worker is
-unlisted and it has exited; the replace thread is at its `join` for worker 0 one step before the creation -/
+unlisted and it has exited; the replace thread is at its `join` for worker 0 (exited: the join can return) one step before
+the creation -/
 example : njCfg.joinTimeout = false ∧ njCfg.factory = true ∧ njCfg.nWorkers = 1 := by decide
 example : (run (init njCfg) njSched).map
     (fun s => (s.procs, s.workers.map (fun w => (w.wid, w.pc)), aliveCnt s, unlistedCnt s)) =
     some ([1], [(0, .exited), (1, .bfClear)], 1, 1) ∧ replCount (init njCfg) njSched = 1 := by decide
-example : (run (init njCfg) (njSched.take 20)).map (fun s => (s.rpc, s.workers.map (fun w => (w.wid, w.pc)))) =
-    some (.join 0, [(0, .exited)]) := by decide
+example : (run (init njCfg) (njSched.take 21)).map (fun s => (s.rpc, s.workers.map (fun w => (w.wid, w.pc)), (step s .r).isSome)) =
+    some (.join 0, [(0, .exited)], true) := by decide
 /-- non-vacuity of `created_plain`: a plain pool -/
 example : (⟨2, none, none, false, none, false, [⟨1, true⟩], [], [], false, false⟩ : Cfg).factory = false := by decide
 
